@@ -3,3 +3,8 @@ CHECKS["C20"] = dict(
     text="TLC exhaustively checks that the ring-buffer design of the delay queue refines a bag of pending deliveries (exactly-once, nearest slot, in order, copy/partition) for all histories up to the depth bound; every generated history (all short ones, thousands of random long ones) is replayed on the real ArrayDelayQueue with the abstract state compared after every operation.",
     ref="DESIGN.md 5 C20", technique="TLA+ spec (DelayQueue.tla) model-checked with TLC; spec behaviours replayed into the implementation step by step",
     note="Requested times are quarter multiples of power-of-two grid steps (never half-way); partition draws are scripted through the guarded uniform_rv hook; state observed through py_copy + drain.")
+
+CHECKS["C07"] = dict(
+    text="TLC enumerates the complete option lattice of the simulation entry point (3000 configurations x 5 model kinds, incl. contradictory arguments) on a pc-level transcription of the dispatch, checks totality/termination/shape invariants, and every configuration is replayed against the real py_simulate_model with the outcome classified (result / explicit rejection by the entry point / internal failure / crash) and the result's rows, time axis, columns, volume trace, divided flag and rule-applied first row compared with the spec.",
+    ref="DESIGN.md 5 C07", technique="TLA+ spec (Dispatch.tla) exhaustively enumerated with TLC; every terminal state replayed into py_simulate_model",
+    note="An explicit rejection is a ValueError/TypeError/NotImplementedError whose innermost frame is py_simulate_model; property level accepts a correct result or an explicit rejection for any configuration (design-level differences are reported as drift).")
